@@ -20,11 +20,20 @@ def check_repo_import():
         raise core.HarnessError('library imported from %s, expected the working tree %s' % (got, want))
 
 
+def all_families(drv, tier):
+    """the driver's families plus the generic E4 family: all ordered pairs of cases picked from them, each pair in a
+    pristine process"""
+    fams = [f for f in drv.families(tier) if f is not None]
+    if not any(isinstance(f, core.CaseHistories) for f in fams) and not getattr(drv, 'NO_CASE_HISTORIES', False):
+        fams.append(core.CaseHistories(fams, **getattr(drv, 'CASE_HISTORIES', {})))
+    return fams
+
+
 def run_property(prop, tier, seed):
     drv = load_driver(prop)
     run = core.Run(prop, tier, seed, drv.LEVEL)
     run.assumptions = list(getattr(drv, 'ASSUMPTIONS', []))
-    fams = drv.families(tier)
+    fams = all_families(drv, tier)
     run.prepare(fams)          # starts the pristine worker pool of the E4 families before anything else runs
     t = time.time()
     if hasattr(drv, 'selftest'):
@@ -54,8 +63,8 @@ def replay(path):
         return run_property(prop, 'quick', int(os.environ.get('VERIF_SEED', '0') or 0))
     drv = load_driver(prop)
     fam = None
-    for f in drv.families('thorough'):
-        if f is not None and f.name == rec['family']:
+    for f in all_families(drv, 'thorough'):
+        if f.name == rec['family']:
             fam = f
     if fam is None:
         print('no family %r in %s' % (rec['family'], prop))
